@@ -98,7 +98,7 @@ theorem colorRows (v : Variant) :
     sgrLookup 38 = none ∧ sgrLookup 48 = none := by
   have ht := tablesOk_all v
   simp only [tablesOk, colorRowsOk, Bool.and_eq_true, List.all_eq_true, List.mem_range, beq_iff_eq] at ht
-  obtain ⟨⟨⟨⟨_, ⟨hrows, h39⟩, h49⟩, _⟩, h38⟩, h48⟩ := ht
+  obtain ⟨⟨⟨⟨⟨_, ⟨hrows, h39⟩, h49⟩, _⟩, h38⟩, h48⟩, _⟩ := ht
   exact ⟨fun n hn => by obtain ⟨⟨⟨a, b⟩, c⟩, d⟩ := hrows n hn; exact ⟨a, b, c, d⟩, h39, h49, h38, h48⟩
 
 /-- `st'` is `st` with its foreground (`fg`) or background colour replaced by `c`. -/
